@@ -107,12 +107,16 @@ pub fn sd_jwt_parts(serialized_jwt: &str) -> (String, Vec<String>, Option<String
 
     let issuer_jwt = parts[0].to_string();
 
-    let disclosures = parts[1..parts.len() - 1]
-        .iter()
-        .map(|s| s.to_string())
-        .collect();
+    let disclosures = if parts.len() > 2 {
+        parts[1..parts.len() - 1]
+            .iter()
+            .map(|s| s.to_string())
+            .collect()
+    } else {
+        Vec::new()
+    };
 
-    let key_binding_jwt = if !parts[parts.len() - 1].is_empty() {
+    let key_binding_jwt = if parts.len() > 1 && !parts[parts.len() - 1].is_empty() {
         Some(parts[parts.len() - 1].to_string())
     } else {
         None
